@@ -565,4 +565,24 @@ theorem yearly_loop_with_break_is_model (period t : Int) (fs : List Fraction) (h
   rw [← e] at hf
   exact (List.takeWhile_sublist _).subset hf
 
+
+/-- with the default bounds (`MIN_DATE`, `MAX_DATE`: no entry is dated outside them) the iterator yields every entry, in order -/
+theorem iterator_default_window {α : Type} (day utcDay : α → Int) (fromD toD : Int) (l : List α)
+    (hall : ∀ x ∈ l, fromD ≤ day x ∧ day x ≤ toD) : drain (iterNext day utcDay fromD toD) (l.length + 1) l = l := by
+  rw [iterator_is_window day utcDay fromD toD l (l.length + 1) (by omega)]
+  unfold viewOf cutAt
+  simp only
+  have h1 : ∀ (m : List α), (∀ x ∈ m, day x ≤ toD) → m.takeWhile (fun x => decide (day x ≤ toD)) = m := by
+    intro m
+    induction m with
+    | nil => intro _; rfl
+    | cons y t ih =>
+      intro hm
+      have hy : day y ≤ toD := hm y List.mem_cons_self
+      simp only [List.takeWhile_cons, hy, decide_true, if_true]
+      rw [ih (fun x hx => hm x (List.mem_cons_of_mem _ hx))]
+  rw [h1 l (fun x hx => (hall x hx).2)]
+  rw [List.filter_eq_self]
+  intro x hx; simpa using (hall x hx).1
+
 end Rp2.Tables
